@@ -73,6 +73,7 @@ def run(ctx):
     if rp_ok == 0 or stats.get("dangling_blocks", 0) == 0:
         raise RuntimeError("vacuous: no accepted re-packed stream / no dangling block (%s)" % stats)
     ctx.coverage["supplementary_streams"] = supplement(ctx, out["cfgs"])
+    ctx.coverage["base_video_format_default_streams"] = base_format_supplement(ctx)
     ctx.assumptions.append("re-packed coefficient magnitudes up to 2^63, qindex up to 119 (HQ) / 99 (LD)")
 
 
@@ -150,6 +151,60 @@ def execute_supp(job):
     return {"records": [rec], "detail": {"exc": sig, "bytes_hex": data.hex() if len(data) < 3000 else ""}}
 
 
+def execute_base(job):
+    """A hand-assembled stream (harness/vc2bytes.py) whose sequence header takes its frame size, colour-difference
+    format and signal range from a BASE VIDEO FORMAT (custom_dimensions_flag = 0; only a small custom clean area),
+    with one all-zero high-quality picture (no transform, one slice).  What "the sequence header implies" is
+    taken from the third-party table vc2_data_tables.BASE_VIDEO_FORMAT_PARAMETERS, not from the decoder."""
+    from vc2_data_tables import BASE_VIDEO_FORMAT_PARAMETERS, BaseVideoFormats, PRESET_SIGNAL_RANGES
+    from .. import vc2bytes as vb
+
+    base, fields, tid = job["base"], job["fields"], job["tid"]
+    par = BASE_VIDEO_FORMAT_PARAMETERS[BaseVideoFormats(base)]
+    sr = PRESET_SIGNAL_RANGES[par.signal_range_index]
+    f = vb.Fmt(profile="HQ", version=2, slices_x=1, slices_y=1)
+    npics = 2 if fields else 1
+    units = [dict(code=vb.PC_SH, payload=vb.sequence_header_base_defaults(base, fields=fields), first_in_sequence=True)]
+    for pn in range(npics):
+        units.append(dict(code=vb.PC_HQ_PIC, payload=vb.picture_payload(f, "HQ", pn)))
+    units.append(dict(code=vb.PC_EOS, payload=b"", npo="zero"))
+    data, _ = vb.assemble(units)
+    rec = dict(cc.EMPTY_STREAM)
+    rec.update({"tid": tid, "ev": "run", "kind": "repacked", "cfg": {"base": base, "fields": fields}, "npics": npics, "enc": "ok", "ser": "ok", "verdict": "none", "pics": [], "klass": "base"})
+    try:
+        rec.update(cc.project_stream(cc.read_back(data)))
+    except Exception as e:  # noqa
+        rec["ser"] = "crash"
+        return {"records": [rec], "detail": {"exc": "build:" + common.exc_signature(e)}}
+    v, sig, pics = cc.decode(data, None, None)
+    for p in pics:
+        # expectation from the standard's table (third party), not from what the decoder reported
+        p["hdr"] = {"w": par.frame_width, "h": par.frame_height, "cdf": int(par.color_diff_format_index), "pcm": 1 if fields else 0,
+                    "le": sr.luma_excursion, "ce": sr.color_diff_excursion}
+    rec["verdict"], rec["pics"] = v, pics
+    return {"records": [rec], "detail": {"exc": sig, "bytes_hex": data.hex()}}
+
+
+def base_format_supplement(ctx):
+    bases = ctx.pick([0, 1, 2, 3, 4, 5, 6, 7, 8, 9, 22], [0, 1, 2, 3, 4, 5, 6, 7, 8, 9, 10, 11, 13, 15, 21, 22])
+    jobs = [{"base": b, "fields": bool(i % 2), "tid": i + 1} for i, b in enumerate(bases)]
+    results = common.pmap(execute_base, jobs)
+    records = [r["records"][0] for r in results]
+    bad, applied, res = cc.judge(records)
+    ctx.add_tlc(res, "trace validation (CodecTrace) of %d hand-assembled streams that rely on base video format defaults" % len(records))
+    for b in bad:
+        if b["clause"].startswith("C09.") and b["alarm"]:
+            j = jobs[b["line"] - 1]
+            r = records[b["line"] - 1]
+            ctx.violation("C09|%s|base-format-defaults|" % b["clause"].split(".", 1)[1], "%s on a stream taking its frame size from base video format %d (%s): decoded %s" % (b["clause"], j["base"], "fields" if j["fields"] else "frames", [(p["yw"], p["yh"], p["cw"], p["ch"]) for p in r["pics"]]), {"basefmt": j})
+    acc = sum(1 for r in records if r["verdict"] == "accepted" and r["pics"])
+    stats = {"streams": len(records), "accepted_with_pictures": acc, "verdicts": dict((str(j["base"]), r["verdict"]) for j, r in zip(jobs, records))}
+    if acc < len(records) - 2:
+        # a validator that rejects these conformant streams is C01's business; here it only empties the premise
+        stats["note"] = "most base-format streams were not accepted: the C09 premise is (nearly) empty for them"
+    return stats
+
+
 def supplement(ctx, cfgs):
     lossless = [c for c in cfgs if c["cfg"]["mode"] == "hq_lossless"]
     jobs = []
@@ -178,6 +233,10 @@ def supplement(ctx, cfgs):
 
 
 def replay(case):
+    if "basefmt" in case:
+        r = execute_base(dict(case["basefmt"], tid=1))
+        bad, _, _ = cc.judge(r["records"])
+        return {"violations": [b for b in bad if b["alarm"] and b["clause"].startswith("C09.")], "detail": r["detail"]}
     if "supp" in case:
         r = execute_supp(case["supp"])
         bad, _, _ = cc.judge(r["records"])
